@@ -84,7 +84,7 @@ func (c13) Gen(rng *rand.Rand, tier string, idx int) Case {
 		case k < 11:
 			c.Ops = append(c.Ops, []string{"conv", hx(p)})
 		case k < 14:
-			pos := []string{"where", "case", "having", "select", "select"}[rng.Intn(5)]
+			pos := []string{"where", "case", "having", "select", "select", "where1", "where2", "case2", "select2"}[rng.Intn(9)]
 			c.Ops = append(c.Ops, []string{"sql", pos, hx(t), hx(p)})
 			if pos == "select" && rng.Intn(2) == 0 {
 				// the case twin of the pattern right behind it, on the same text
@@ -105,6 +105,11 @@ func (c13) Gen(rng *rand.Rand, tier string, idx int) Case {
 			cell := []string{"m", "n", "p"}[rng.Intn(3)]
 			neg := []string{"is", "not"}[rng.Intn(2)]
 			c.Ops = append(c.Ops, []string{"isnull", path, cell, neg})
+			if rng.Intn(2) == 0 {
+				// a function call where a bare column is usual: coalesce(x, y), null_if(x, 'v') (x = 'v' | 'w' | NULL | missing)
+				c.Ops = append(c.Ops, []string{"isnullf", []string{"where", "case"}[rng.Intn(2)], []string{"coalesce", "nullif"}[rng.Intn(2)],
+					[]string{"m", "n", "p", "q"}[rng.Intn(4)], []string{"m", "n", "p"}[rng.Intn(3)], neg})
+			}
 		}
 	}
 	return c
@@ -178,6 +183,37 @@ func sqlCombo(pos, t, p, xc, yc string) string {
 
 func sqlLike(pos, t, p string) string {
 	row := map[string]interface{}{"id": 1, "x": t}
+	col := "x"
+	// where1 / case2 / …: the operand is a nested column one or two levels down (b.x, a.b.x)
+	if n := len(pos); n > 0 && (pos[n-1] == '1' || pos[n-1] == '2') {
+		if pos[n-1] == '1' {
+			row, col = map[string]interface{}{"id": 1, "b": map[string]interface{}{"x": t}}, "b.x"
+		} else {
+			row, col = map[string]interface{}{"id": 1, "a": map[string]interface{}{"b": map[string]interface{}{"x": t}}}, "a.b.x"
+		}
+		pos = pos[:n-1]
+		switch pos {
+		case "select":
+			out, e1, e2 := runRowQuery("SELECT id, ("+col+" LIKE '"+p+"') AS r FROM stream", row)
+			if e1 != nil || e2 != nil || out == nil {
+				return "err"
+			}
+			return btok(fmt.Sprint(out["r"]) == "true")
+		case "where":
+			out, e1, e2 := runRowQuery("SELECT id FROM stream WHERE "+col+" LIKE '"+p+"'", row)
+			if e1 != nil || e2 != nil {
+				return "err"
+			}
+			return btok(out != nil)
+		case "case":
+			out, e1, e2 := runRowQuery("SELECT id, CASE WHEN "+col+" LIKE '"+p+"' THEN 1 ELSE 0 END AS r FROM stream", row)
+			if e1 != nil || e2 != nil || out == nil {
+				return "err"
+			}
+			return btok(fmt.Sprint(out["r"]) == "1")
+		}
+		return "bad-pos"
+	}
 	switch pos {
 	case "select":
 		out, e1, e2 := runRowQuery("SELECT id, (x LIKE '"+p+"') AS r FROM stream", row)
@@ -265,6 +301,43 @@ func sqlIsNull(path, cell, neg string) string {
 	return "bad-path"
 }
 
+// sqlIsNullFn: IS [NOT] NULL over a function call. x: m missing, n NULL, p 'v', q 'w'; y: m, n, p 'v'.
+func sqlIsNullFn(path, fn, xc, yc, neg string) string {
+	row := map[string]interface{}{"id": 1}
+	switch xc {
+	case "n":
+		row["x"] = nil
+	case "p":
+		row["x"] = "v"
+	case "q":
+		row["x"] = "w"
+	}
+	c13Cell(row, "y", yc, "v")
+	operand := "coalesce(x, y)"
+	if fn == "nullif" {
+		operand = "null_if(x, 'v')"
+	}
+	kw := "IS NULL"
+	if neg == "not" {
+		kw = "IS NOT NULL"
+	}
+	switch path {
+	case "where":
+		out, e1, e2 := runRowQuery("SELECT id FROM stream WHERE "+operand+" "+kw, row)
+		if e1 != nil || e2 != nil {
+			return "err"
+		}
+		return btok(out != nil)
+	case "case":
+		out, e1, e2 := runRowQuery("SELECT id, CASE WHEN "+operand+" "+kw+" THEN 1 ELSE 0 END AS r FROM stream", row)
+		if e1 != nil || e2 != nil || out == nil {
+			return "err"
+		}
+		return btok(fmt.Sprint(out["r"]) == "1")
+	}
+	return "bad-path"
+}
+
 func (c13) Exec(c Case) [][][]string {
 	var out [][][]string
 	for _, op := range c.Ops {
@@ -287,6 +360,8 @@ func (c13) Exec(c Case) [][][]string {
 			out = append(out, [][]string{{"r", sqlLike(op[1], unhx(op[2]), unhx(op[3]))}})
 		case "isnull":
 			out = append(out, [][]string{{"r", sqlIsNull(op[1], op[2], op[3])}})
+		case "isnullf":
+			out = append(out, [][]string{{"r", sqlIsNullFn(op[1], op[2], op[3], op[4], op[5])}})
 		case "combo":
 			out = append(out, [][]string{{"r", sqlCombo(op[1], unhx(op[2]), unhx(op[3]), op[4], op[5])}})
 		default:
